@@ -921,4 +921,52 @@ theorem whole_file_bound {c : CryptoOps} (hc : CryptoLaws c) (s : ObjState) (hg 
     rw [hcoord] at hver ⊢
     exact hver
 
+/-! ## key separation (reductions to a CMAC forgery) -/
+
+/-- the derivation input determines the derivation constant (its first 12 bytes are the constant, little endian) -/
+theorem kdfInput_inj_const (n m rights : Nat) (blk : Bool) (keyBits iter : Nat) (hn : n < 256 ^ 12) (hm : m < 256 ^ 12)
+    (h : kdfInput n rights blk keyBits iter = kdfInput m rights blk keyBits iter) : n = m := by
+  have h12 := congrArg (fun l => leDec (l.take 12)) h
+  simp only [kdfInput, List.append_assoc] at h12
+  rw [List.take_left' (leEnc_length 12 n), List.take_left' (leEnc_length 12 m), leDec_leEnc _ _ hn, leDec_leEnc _ _ hm] at h12
+  exact h12
+
+/-- the derivation input determines the access rights (byte 20 = rights · 64) -/
+theorem kdfInput_inj_rights (n r₁ r₂ : Nat) (blk : Bool) (keyBits iter : Nat) (h₁ : r₁ < 4) (h₂ : r₂ < 4)
+    (h : kdfInput n r₁ blk keyBits iter = kdfInput n r₂ blk keyBits iter) : r₁ = r₂ := by
+  have hb := congrArg (fun l => (l.drop 20).head?) h
+  simp only [kdfInput, List.append_assoc] at hb
+  have e : ∀ (x : Bytes) (y : Bytes), x.length = 12 → ((x ++ (zeros 8 ++ y)).drop 20) = y := by
+    intro x y hx
+    rw [← List.append_assoc]; exact List.drop_left' (by simp [hx])
+  rw [e _ _ (leEnc_length 12 n), e _ _ (leEnc_length 12 n)] at hb
+  simp only [List.cons_append, List.head?_cons, Option.some.injEq] at hb
+  have : r₁ = 0 ∨ r₁ = 1 ∨ r₁ = 2 ∨ r₁ = 3 := by omega
+  have : r₂ = 0 ∨ r₂ = 1 ∨ r₂ = 2 ∨ r₂ = 3 := by omega
+  rcases ‹r₁ = 0 ∨ _› with rfl | rfl | rfl | rfl <;> rcases ‹r₂ = 0 ∨ _› with rfl | rfl | rfl | rfl <;>
+    first | rfl | (exact absurd hb (by decide))
+
+/-- equal derived keys come from equal first CMAC blocks -/
+theorem kdf_first_block {c : CryptoOps} (hc : CryptoLaws c) (key : Bytes) (a₁ a₂ r₁ r₂ : Nat) (blk : Bool) (keyBits : Nat)
+    (h : kdf c key a₁ r₁ blk keyBits = kdf c key a₂ r₂ blk keyBits) :
+    cmac c key (kdfInput a₁ r₁ blk keyBits 1) = cmac c key (kdfInput a₂ r₂ blk keyBits 1) := by
+  simp only [kdf] at h
+  exact List.append_inj_left h (by rw [cmac_length hc, cmac_length hc])
+
+/-- KEY SEPARATION: two blocks get the same key only if they are the same block — or a CMAC forgery is exhibited -/
+theorem kdf_sep_const {c : CryptoOps} (hc : CryptoLaws c) (key : Bytes) (n m rights : Nat) (blk : Bool) (keyBits : Nat)
+    (hn : n < 256 ^ 12) (hm : m < 256 ^ 12)
+    (h : kdf c key n rights blk keyBits = kdf c key m rights blk keyBits) : n = m ∨ Break c := by
+  by_cases e : kdfInput n rights blk keyBits 1 = kdfInput m rights blk keyBits 1
+  · exact Or.inl (kdfInput_inj_const n m rights blk keyBits 1 hn hm e)
+  · exact Or.inr (Break.cmacForgery key _ _ e (kdf_first_block hc key n m rights rights blk keyBits h))
+
+/-- … and keys derived under different access rights differ, or a CMAC forgery is exhibited -/
+theorem kdf_sep_rights {c : CryptoOps} (hc : CryptoLaws c) (key : Bytes) (n r₁ r₂ : Nat) (blk : Bool) (keyBits : Nat)
+    (h₁ : r₁ < 4) (h₂ : r₂ < 4)
+    (h : kdf c key n r₁ blk keyBits = kdf c key n r₂ blk keyBits) : r₁ = r₂ ∨ Break c := by
+  by_cases e : kdfInput n r₁ blk keyBits 1 = kdfInput n r₂ blk keyBits 1
+  · exact Or.inl (kdfInput_inj_rights n r₁ r₂ blk keyBits 1 h₁ h₂ e)
+  · exact Or.inr (Break.cmacForgery key _ _ e (kdf_first_block hc key n n r₁ r₂ blk keyBits h))
+
 end SpsdkVerif.Sb31
